@@ -5,6 +5,10 @@ usage: selftest/run_seeded.py [--tier quick|thorough] [--only substring ...]"""
 import glob, json, os, subprocess, sys, time
 ROOT = os.path.dirname(os.path.dirname(os.path.abspath(__file__)))
 REPO = os.environ.get("VERIF_REPO", "/repo")
+# private scratch roots, so that other checks running in /verif at the same time are not disturbed
+SCRATCH = os.path.join(ROOT, ".work", "selftest-%d" % os.getpid())
+os.environ["VERIF_WORKROOT"] = os.path.join(SCRATCH, "work")
+os.environ["VERIF_REPLAYROOT"] = os.path.join(SCRATCH, "replays")
 
 def sh(cmd, cwd=None):
     p = subprocess.run(cmd, cwd=cwd, shell=isinstance(cmd, str), stdout=subprocess.PIPE, stderr=subprocess.STDOUT, env=dict(os.environ, VERIF_REPO=REPO))
@@ -34,7 +38,7 @@ def main():
             rc, out = sh(["./check", pid, tier], ROOT)
             res[pid] = (rc, round(time.time() - t0))
         sh("git checkout -- . && git clean -fdq", REPO)
-        sh("rm -rf %s/.work/* %s/replays" % (ROOT, ROOT))
+        sh("rm -rf %s" % SCRATCH)
         verdict = "CAUGHT" if all(v[0] == 1 for v in res.values()) else "MISSED"
         if verdict == "MISSED" and meta.get("expected_verdict") == "MISSED":
             verdict = "MISSED (documented limit, see DESIGN.md)"
